@@ -517,19 +517,3 @@ fn c09_roundtrip_datetime() {
         }
     }
 }
-
-//@harness c09_parse_date_any10
-//@target fmt::temporal::DateTimeParser::parse_date -> parser::DateTimeParser::parse_temporal_datetime (glue) -> {parse_offset, parse_annotations -> fmt::rfc9557::Parser::parse, fmt::offset::Parser::parse} -> Parsed::into_full -> ParsedDateTime::to_date (src/fmt/temporal/mod.rs, parser.rs, src/fmt/rfc9557.rs, src/fmt/offset.rs)
-//@prop C09
-//@tier thorough
-//@timeout 1500
-//@doc for EVERY 10-byte string (no shape assumption): the public date parser returns Ok(d) exactly when the string is `YYYY-MM-DD` naming a Gregorian date per the independent reference reader, with exactly those fields; in particular a basic-format date followed by two more bytes (`YYYYMMDD??`, incl. `T?`, `[?`, `+?`) and every signed-year prefix are Err.  Real glue, real offset and RFC 9557 annotation parsers on the (at most 2-byte) rest; parse_date_spec and parse_time_spec replaced by their proved contracts
-#[kani::proof]
-#[kani::stub(DateTimeParser::parse_date_spec, date_spec_contract)]
-#[kani::stub(DateTimeParser::parse_time_spec, time_spec_contract)]
-#[kani::unwind(4)]
-#[kani::solver(kissat)]
-fn c09_parse_date_any10() {
-    let b: [u8; 10] = kani::any();
-    check_parse_date(&b);
-}
